@@ -10,6 +10,8 @@ import (
 	"errors"
 	"io"
 	"math/big"
+	"strings"
+	"sync"
 	"testing"
 	"time"
 
@@ -18,8 +20,39 @@ import (
 	"github.com/gauss-project/aurorafs/pkg/logging"
 	chequePkg "github.com/gauss-project/aurorafs/pkg/settlement/traffic/cheque"
 	"github.com/gauss-project/aurorafs/pkg/statestore/mock"
+	"github.com/gauss-project/aurorafs/pkg/storage"
 	"github.com/gauss-project/aurorafs/pkg/subscribe"
 )
+
+// state store in which a read of a last-received-cheque record waits (up to 300 ms) for a second
+// concurrent reader of such a record: two overlapping cheques of one issuer then both see the old record
+// - unless the store serialises them
+type verifMeetStore struct {
+	storage.StateStorer
+	mu      sync.Mutex
+	waiting chan struct{}
+}
+
+func (m *verifMeetStore) Get(key string, i interface{}) error {
+	if strings.Contains(key, "received_cheque") {
+		m.mu.Lock()
+		if m.waiting == nil {
+			ch := make(chan struct{})
+			m.waiting = ch
+			m.mu.Unlock()
+			select {
+			case <-ch:
+			case <-time.After(300 * time.Millisecond):
+				m.mu.Lock(); if m.waiting == ch { m.waiting = nil }; m.mu.Unlock()
+			}
+		} else {
+			close(m.waiting)
+			m.waiting = nil
+			m.mu.Unlock()
+		}
+	}
+	return m.StateStorer.Get(key, i)
+}
 
 type verifBook struct{ m map[string]common.Address }
 
@@ -108,6 +141,30 @@ func TestVerifReplay(t *testing.T) {
 	}
 	for name, steps := range scenarios {
 		if run(name, steps) { return }
+	}
+	// ---- two overlapping cheques of one issuer handed to the cheque store itself
+	for _, pays := range [][2]int64{{10, 10}, {20, 10}, {10, 20}} {
+		ms := &verifMeetStore{StateStorer: mock.NewStateStore()}
+		cs := chequePkg.NewChequeStore(ms, self, recover, 1)
+		type res struct{ amt *big.Int; err error }
+		out := make(chan res, 2)
+		for _, pv := range pays {
+			pv := pv
+			go func() {
+				a, err := cs.ReceiveCheque(context.Background(), &chequePkg.SignedCheque{Cheque: chequePkg.Cheque{Recipient: self, Beneficiary: issuerA, CumulativePayout: big.NewInt(pv)}, Signature: []byte{1}})
+				out <- res{a, err}
+			}()
+		}
+		total, highest, accepted := int64(0), int64(0), 0
+		for i := 0; i < 2; i++ {
+			r := <-out
+			if r.err == nil { accepted++; total += r.amt.Int64() }
+		}
+		for _, pv := range pays { if pv > highest { highest = pv } }
+		if total > highest {
+			t.Logf("REPLAY-CONFIRMED two overlapping cheques of one issuer with cumulative payouts %v handed to the cheque store: %d accepted, %d credited in total, the highest cumulative payout is %d", pays, accepted, total, highest)
+			return
+		}
 	}
 	t.Logf("not reproduced")
 }
